@@ -261,6 +261,9 @@ pub fn payloads() -> Vec<Payload> {
         true,
     ));
     v.push(p("dns-txt-ch", appdns::build_query(0x1339, 0x0100, &[(dns_labels("version.bind"), 16, 3)]), Via::UdpOnly, false));
+    // queries whose answers exceed 512 bytes (the classic datagram limit) and 1500 bytes
+    v.push(p("dns-a-x12", appdns::build_query(0x133a, 0x0100, &(0..12).map(|_| (dns_labels("www.example.com"), 1u16, 1u16)).collect::<Vec<_>>()), Via::UdpOnly, true));
+    v.push(p("dns-a-x40", appdns::build_query(0x133b, 0x0000, &(0..40).map(|k| (dns_labels(&format!("h{}.example.org", k)), 1u16, 1u16)).collect::<Vec<_>>()), Via::UdpOnly, true));
     // polyglots: cookie-less STUN requests whose transaction id also reads as a complete DNS IN/A
     // query (id 0x0001, flags 0x0000 / 0x0008, one question "ab"); the signature set decides: STUN
     v.push(p("stun-classic-dns-polyglot", b"\x00\x01\x00\x00\x00\x01\x00\x00\x00\x00\x00\x00\x02ab\x00\x00\x01\x00\x01".to_vec(), Via::UdpOnly, true));
@@ -319,6 +322,13 @@ pub fn stun_attr_shapes() -> Vec<Vec<u8>> {
     ];
     let pad = stun_attr(0x8022, &[b'p'; 252]);
     let mut v = Vec::new();
+    // bytes BEHIND the declared end of the message that read as attributes (they are not part of it)
+    for tail in [stun_attr(3, &[0, 0, 0, 2]), stun_attr(3, &[0, 0, 0, 6]), stun_attr(2, &[0, 1, 0x1f, 0x90, 9, 9, 9, 9]), vec![0, 3, 0, 4], vec![0, 0, 0, 0], [stun_attr(0x8022, b"abcd"), stun_attr(3, &[0, 0, 0, 2])].concat()] {
+        v.push([stun_magic(&pad, &ID12), tail.clone()].concat());
+        v.push([stun_magic(&[pad.clone(), stun_attr(3, &[0, 0, 0, 0])].concat(), &ID12), tail.clone()].concat());
+        v.push([stun_magic(&[], &ID12), tail.clone()].concat());
+        v.push([stun_classic(&[], &ID16), tail].concat());
+    }
     for t in &types {
         for val in &vals {
             let a = stun_attr(*t, val);
